@@ -1,11 +1,11 @@
 package mon
 
 import (
-	"github.com/gookit/rux/pkg/handlers"
-	"errors"
 	"bufio"
 	"encoding/json"
+	"errors"
 	"fmt"
+	"github.com/gookit/rux/pkg/handlers"
 	"math/rand/v2"
 	"os"
 	"os/exec"
